@@ -205,16 +205,23 @@ func (l *e2eLink) transfer(p e2ePattern, body []byte) (got []byte, back []byte, 
 	return got, back, err
 }
 
-func runC01(c *Ctx) {
-	c.Rep.Rule = "(a) real conn code over in-memory connections with fragmentation, both directions, boundary sizes; (b) NewMessage/Free across all pool classes; " +
-		"(c) real sockets: 6 transports x 16 socket kinds (8 patterns cooked and raw), position-dependent bodies of lengths adjacent to pool classes, back to back on one connection, " +
-		"and totals at MaxRecvSize / MaxRecvSize+1; class = (transport, pattern, size class) or the wire classes; non-trivial = boundary lengths (class edge ±1, limit, limit+1) or fragmented streams"
+func initTLS() error {
+	if srvTLS != nil && cliTLS != nil {
+		return nil
+	}
 	var err error
 	srvTLS, err = mtest.NewTLSConfig(true)
 	if err == nil {
 		cliTLS, err = mtest.NewTLSConfig(false)
 	}
-	if err != nil {
+	return err
+}
+
+func runC01(c *Ctx) {
+	c.Rep.Rule = "(a) real conn code over in-memory connections with fragmentation, both directions, boundary sizes; (b) NewMessage/Free across all pool classes; " +
+		"(c) real sockets: 6 transports x 16 socket kinds (8 patterns cooked and raw), position-dependent bodies of lengths adjacent to pool classes, back to back on one connection, " +
+		"and totals at MaxRecvSize / MaxRecvSize+1; class = (transport, pattern, size class) or the wire classes; non-trivial = boundary lengths (class edge ±1, limit, limit+1) or fragmented streams"
+	if err := initTLS(); err != nil {
 		c.Violate("cannot create TLS configuration: "+err.Error(), nil)
 		return
 	}
